@@ -39,6 +39,7 @@ type form struct {
 	L      map[string]int
 	Top    string // symbolic value on top of the stack: "var:size", "len:Nodes", "int:0"…
 	SD     int    // relative scope depth
+	IMin, CMin int // proven lower bounds of the loop index / counter on every path reaching this point
 	Def    map[string]bool // scope variables certainly stored since the innermost Begin (flattened per depth by prefix)
 	DefStack []map[string]bool
 }
@@ -102,7 +103,7 @@ func (f form) String() string {
 
 // lowerBoundOK: the form is certainly ≥ 0 (all symbols are ≥ 0).
 func (f form) nonNegative() bool {
-	if f.K < 0 || f.CI < 0 || f.CC < 0 {
+	if f.CI < 0 || f.CC < 0 || f.K+f.CI*f.IMin+f.CC*f.CMin < 0 {
 		return false
 	}
 	for _, v := range f.L {
@@ -344,9 +345,6 @@ func verifyWith(em *Emitter, t *Template, conf VerifyConf, a, b int) *VerifyResu
 					return f, false
 				}
 			}
-			if sig.Scope == "" && e.Op != "" && isScopeLoad(sig, e) {
-				sig = sig // handled below
-			}
 			// pops
 			pops := sig.Pop
 			if sig.Peek && pops == 0 {
@@ -427,6 +425,7 @@ func verifyWith(em *Emitter, t *Template, conf VerifyConf, a, b int) *VerifyResu
 				}
 				f.DefStack[len(f.DefStack)-1][key] = true
 				if key == conf.IndexVar {
+					f.IMin = 0
 					if topBefore == "int:0" {
 						f.CI = a
 					} else {
@@ -435,6 +434,7 @@ func verifyWith(em *Emitter, t *Template, conf VerifyConf, a, b int) *VerifyResu
 					}
 				}
 				if key == conf.CountVar {
+					f.CMin = 0
 					if topBefore == "int:0" {
 						f.CC = b
 					} else {
@@ -451,11 +451,15 @@ func verifyWith(em *Emitter, t *Template, conf VerifyConf, a, b int) *VerifyResu
 					add("V5", i, "%s %q before the variable is stored in this scope", e.Op, key)
 					return f, false
 				}
+				// depth = K + CI·I + CC·C is unchanged by the increment: K absorbs it, and the
+				// incremented variable is now at least one more than its proven lower bound
 				if key == conf.IndexVar {
 					f.K -= f.CI
+					f.IMin++
 				}
 				if key == conf.CountVar {
 					f.K -= f.CC
+					f.CMin++
 				}
 			case isLoad(sig):
 				if f.SD == 0 {
@@ -506,6 +510,14 @@ func verifyWith(em *Emitter, t *Template, conf VerifyConf, a, b int) *VerifyResu
 						}
 					}
 				}
+			}
+			if o.IMin < in[s].IMin {
+				in[s].IMin = o.IMin
+				changed = true
+			}
+			if o.CMin < in[s].CMin {
+				in[s].CMin = o.CMin
+				changed = true
 			}
 			if in[s].Top != o.Top && in[s].Top != "" {
 				in[s].Top = ""
